@@ -102,7 +102,7 @@ def load(repo="/repo", profile="debug"):
                     os.remove(tmp)
             # keep the cache small: at most 12 fact files
             ents = sorted((os.path.getmtime(os.path.join(d, f)), f) for f in os.listdir(d))
-            for _, f in ents[:-12]:
+            for _, f in ents[:-40]:
                 os.remove(os.path.join(d, f))
             sys.stderr.write("[facts] extracted %s in %.1fs\n" % (key, time.time() - t))
     finally:
